@@ -142,14 +142,26 @@ def blank(src, start, end):
 
 
 def cut_tests(src):
-    """E1: drop everything from the file's `#[cfg(test)] mod <name>` item on."""
+    """E1: drop the file's `#[cfg(test)] mod <name> { .. }` item.  When nothing but whitespace follows it the file is
+    simply truncated there; otherwise only the module is blanked (line preserving) and the items after it are kept
+    (trace.rs defines `call_stack()` after its test module)."""
     m = re.search(r"^#\[cfg\(test\)\]\s*\n\s*(pub(\([a-z]+\))?\s+)?mod\s+\w+", src, re.M)
     if not m:
         return src, False
     head = src[:m.start()]
     # the test module may itself sit inside a block comment (syscalls.rs): drop the dangling opener too
     if head.count("/*") > head.count("*/"):
-        head = head[:head.rindex("/*")]
+        return head[:head.rindex("/*")], True
+    rest = src[m.end():]
+    mb = re.match(r"\s*\{", rest)
+    if mb:
+        try:
+            end = match_brace(src, m.end() + mb.end() - 1)
+            tail = src[end + 1:]
+            if tail.strip():
+                return head + re.sub(r"[^\n]", " ", src[m.start():end + 1]) + tail, True
+        except ValueError:
+            pass
     return head, True
 
 
